@@ -1,8 +1,136 @@
-/- line-protocol handlers for the C13 models (stub: nothing modelled yet) -/
-import FontVerif.Model.Base
-namespace FontVerif.Drv.C13
-open FontVerif
+/- line-protocol handlers for the C13 model (Model/Paint.lean)
 
-def handle (_cmd : String) (_args : List String) : Option String := none
+`paint  fg cm gid  nN (id kind a b c)*  nL (idx pid|-1)*  nB (gid pid|-1)*  nC gid*`
+   → `<result> <events…>`   result ∈ ok | err:Parse | err:GlyphNotFound | err:Cycle | err:Depth | err:Client | noglyph
+`visits …same…` → number of paint nodes visited by the model
+`v0 fg first num nL (idx gid|-1)*` → `<result> <events…>`
+`enter id n p0 … p(n-1)` → `ok` | `err:Cycle` | `err:Depth`
+node kinds: 0 colrLayers(first,num) 1 leaf(fills) 2 glyph(gid,child) 3 colrGlyph(gid) 4 transform(child)
+            5 composite(src,mode,backdrop)
+-/
+import FontVerif.Model.Paint
+namespace FontVerif.Drv.C13
+open FontVerif FontVerif.Paint
+
+def evTok : Event → String
+  | .pushT => "T"
+  | .popT => "t"
+  | .pushClipGlyph g => s!"G{g}"
+  | .pushClipBox => "B"
+  | .popClip => "c"
+  | .pushLayer m => s!"L{m}"
+  | .popLayer m => s!"l{m}"
+  | .fill => "F"
+  | .fillGlyph g ht => s!"g{g}:{if ht then 1 else 0}"
+  | .cached g => s!"C{g}"
+
+def errTok : Option PErr → String
+  | none => "ok"
+  | some .parse => "err:Parse"
+  | some .glyphNotFound => "err:GlyphNotFound"
+  | some .cycle => "err:Cycle"
+  | some .depth => "err:Depth"
+  | some .client => "err:Client"
+
+def showRes (r : Res) : String :=
+  let evs := r.2.evs
+  errTok r.1 ++ " " ++ (if evs.isEmpty then "-" else " ".intercalate (evs.map evTok))
+
+/-- split off `n` groups of `k` ints -/
+def takeGroups (k : Nat) : Nat → List Int → Option (List (List Int) × List Int)
+  | 0, xs => some ([], xs)
+  | n + 1, xs =>
+    if xs.length < k then none else
+    match takeGroups k n (xs.drop k) with
+    | none => none
+    | some (gs, rest) => some (xs.take k :: gs, rest)
+
+def section? (k : Nat) (xs : List Int) : Option (List (List Int) × List Int) :=
+  match xs with
+  | [] => none
+  | n :: rest => if n < 0 then none else takeGroups k n.toNat rest
+
+def nodeOf : List Int → Option (Nat × Node)
+  | [id, kind, a, b, c] =>
+    if id < 0 ∨ a < 0 ∨ b < 0 ∨ c < 0 then none else
+    match kind with
+    | 0 => some (id.toNat, .colrLayers a.toNat b.toNat)
+    | 1 => some (id.toNat, .leaf (a ≠ 0))
+    | 2 => some (id.toNat, .glyph a.toNat b.toNat)
+    | 3 => some (id.toNat, .colrGlyph a.toNat)
+    | 4 => some (id.toNat, .transform a.toNat)
+    | 5 => some (id.toNat, .composite a.toNat b.toNat c.toNat)
+    | _ => none
+  | _ => none
+
+def pairOf : List Int → Option (Nat × Option Nat)
+  | [k, v] => if k < 0 then none else some (k.toNat, if v < 0 then none else some v.toNat)
+  | _ => none
+
+structure Req where
+  client : Client
+  gid : Nat
+  inst : Instance
+
+def parseReq (xs : List Int) : Option Req :=
+  match xs with
+  | fg :: cm :: gid :: rest =>
+    if fg < 0 ∨ cm < 0 ∨ gid < 0 then none else
+    match section? 5 rest with
+    | none => none
+    | some (ns, rest) =>
+      match ns.mapM nodeOf, section? 2 rest with
+      | some nodes, some (ls, rest) =>
+        match ls.mapM pairOf, section? 2 rest with
+        | some layers, some (bs, rest) =>
+          match bs.mapM pairOf, section? 1 rest with
+          | some bases, some (cs, []) =>
+            if cs.any (fun g => g.any (· < 0)) then none else
+            some { client := Client.ofModes fg.toNat cm.toNat, gid := gid.toNat,
+                   inst := Instance.ofTables nodes layers bases (cs.map (fun g => (g.headD 0).toNat)) }
+          | _, _ => none
+        | _, _ => none
+      | _, _ => none
+  | _ => none
+
+def handle (cmd : String) (args : List String) : Option String :=
+  match parseInts? args with
+  | none => none
+  | some xs =>
+    match cmd with
+    | "paint" =>
+      match parseReq xs with
+      | none => none
+      | some r => match paintV1 r.inst r.client r.gid with
+        | none => some "noglyph"
+        | some res => some (showRes res)
+    | "visits" =>
+      match parseReq xs with
+      | none => none
+      | some r => match paintV1 r.inst r.client r.gid with
+        | none => some "noglyph"
+        | some res => some (toString res.2.visits)
+    | "v0" =>
+      match xs with
+      | fg :: first :: num :: rest =>
+        if fg < 0 ∨ first < 0 ∨ num < 0 then none else
+        match section? 2 rest with
+        | some (ls, []) =>
+          match ls.mapM pairOf with
+          | none => none
+          | some layers =>
+            some (showRes (paintV0 (Client.ofModes fg.toNat 0) (fun i => (lookup layers i).bind id)
+              first.toNat num.toNat))
+        | _ => none
+      | _ => none
+    | "enter" =>
+      match xs with
+      | id :: n :: path =>
+        if id < 0 ∨ n < 0 ∨ path.length ≠ n.toNat ∨ path.any (· < 0) then none else
+        match enter (path.map Int.toNat) id.toNat with
+        | .ok _ => some "ok"
+        | .error e => some (errTok (some e))
+      | _ => none
+    | _ => none
 
 end FontVerif.Drv.C13
